@@ -257,3 +257,145 @@ Proof.
   intros Hcl H1 H2. rewrite (xb_document_to_ast _ _ _ _ Hcl H2), (xb_document_to_ast _ _ _ _ Hcl H1).
   apply xt_reorder_idempotent.
 Qed.
+
+(* ---------------------------------------------------------------- the second round, in full *)
+
+(* how the stored parts were built from the definitions of each kind, in order *)
+Inductive XtNamedBuilt (s : option schema) : document -> list (str * xop) -> Prop :=
+| XtNB_nil : XtNamedBuilt s [] []
+| XtNB_snoc L M o n v di sl op :
+    XtNamedBuilt s L M -> xb_has_key n M = false ->
+    xb_operation s o (Some n) v di sl = Some (op, []) ->
+    XtNamedBuilt s (L ++ [DOperation o (Some n) v di sl]) (M ++ [(n, op)]).
+
+Inductive XtFragsBuilt (s : option schema) : document -> list (str * xfrag) -> Prop :=
+| XtFB_nil : XtFragsBuilt s [] []
+| XtFB_snoc L M n c di sl f :
+    XtFragsBuilt s L M -> xb_has_key n M = false ->
+    xb_fragment s n c di sl = (Some f, []) ->
+    XtFragsBuilt s (L ++ [DFragment n c di sl]) (M ++ [(n, f)]).
+
+Definition XtAnonBuilt (s : option schema) (L : document) (anon : option xop) : Prop :=
+  (L = [] /\ anon = None) \/
+  (exists o v di sl op, L = [DOperation o None v di sl] /\
+                        xb_operation s o None v di sl = Some (op, []) /\ anon = Some op).
+
+Definition xt_facts (s : option schema) (pre : document) (d : xdoc) : Prop :=
+  XtAnonBuilt s (filter xt_is_anon pre) (xd_anon d) /\
+  XtNamedBuilt s (filter xt_is_named pre) (xd_named d) /\
+  XtFragsBuilt s (filter xt_is_frag pre) (xd_frags d) /\
+  (xd_anon d <> None -> xd_named d = []).
+
+Lemma xb_is_nil_true {A} (l : list A) : xb_is_nil l = true -> l = [].
+Proof. destruct l; [reflexivity|discriminate]. Qed.
+
+Lemma xb_definition_facts s ts pre st def :
+  xb_errs st = [] -> xb_errs (xb_definition s ts st def) = [] ->
+  xt_facts s pre (xb_doc st) -> xt_facts s (pre ++ [def]) (xb_doc (xb_definition s ts st def)).
+Proof.
+  intros He0 He (Fa & Fn & Ff & Fan). unfold xt_facts. rewrite !filter_snoc.
+  assert (Hkeep : forall d, xt_is_anon d = false -> xt_is_named d = false -> xt_is_frag d = false ->
+            XtAnonBuilt s (filter xt_is_anon pre ++ (if xt_is_anon d then [d] else [])) (xd_anon (xb_doc st)) /\
+            XtNamedBuilt s (filter xt_is_named pre ++ (if xt_is_named d then [d] else [])) (xd_named (xb_doc st)) /\
+            XtFragsBuilt s (filter xt_is_frag pre ++ (if xt_is_frag d then [d] else [])) (xd_frags (xb_doc st)) /\
+            (xd_anon (xb_doc st) <> None -> xd_named (xb_doc st) = [])).
+  { intros d -> -> ->. rewrite !app_nil_r. auto. }
+  destruct def; cbn [xb_definition] in He |- *;
+    try (destruct ts; [cbn [xb_push xb_errs] in He; rewrite He0 in He; discriminate|apply Hkeep; reflexivity]).
+  - destruct name as [name|].
+    + destruct (xd_anon (xb_doc st)) as [prev|] eqn:Ea.
+      { exfalso. destruct (xb_has_key name (xd_named (xb_doc st)));
+          [|destruct (xb_operation s op (Some name) vars dirs sels) as [[o es]|]];
+          cbn [xb_push xb_with_doc xb_errs] in He; rewrite He0 in He; discriminate. }
+      destruct (xb_has_key name (xd_named (xb_doc st))) eqn:Ek.
+      { exfalso. cbn [xb_push xb_errs] in He. rewrite He0 in He. discriminate. }
+      destruct (xb_operation s op (Some name) vars dirs sels) as [[o es]|] eqn:Eo.
+      2:{ exfalso. cbn [xb_push xb_errs] in He. rewrite He0 in He. discriminate. }
+      cbn [xb_push xb_with_doc xb_errs xb_doc] in He |- *. rewrite He0 in He. cbn [app] in He. subst es.
+      cbn [xd_anon xd_named xd_frags xt_is_anon xt_is_named xt_is_frag]. rewrite !app_nil_r.
+      repeat split; try assumption.
+      * econstructor; eassumption.
+      * intros H. now contradiction H.
+    + destruct (xd_anon (xb_doc st)) as [prev|] eqn:Ea.
+      { exfalso. destruct (xb_multiple_anonymous st); cbn [xb_push xb_errs] in He;
+          rewrite He0 in He; discriminate. }
+      destruct (xb_is_nil (xd_named (xb_doc st))) eqn:En; cbn [negb] in He |- *.
+      2:{ exfalso. cbn [xb_push xb_errs] in He. rewrite He0 in He. discriminate. }
+      destruct (xb_operation s op None vars dirs sels) as [[o es]|] eqn:Eo.
+      2:{ exfalso. cbn [xb_push xb_errs] in He. rewrite He0 in He. discriminate. }
+      cbn [xb_push xb_with_doc xb_errs xb_doc] in He |- *. rewrite He0 in He. cbn [app] in He. subst es.
+      cbn [xd_anon xd_named xd_frags xt_is_anon xt_is_named xt_is_frag]. rewrite !app_nil_r.
+      repeat split; try assumption.
+      * right. destruct Fa as [[-> _]|(o' & v' & di' & sl' & op' & _ & _ & Hs)]; [|discriminate].
+        cbn [app]. do 5 eexists. split; [reflexivity|]. split; [exact Eo|reflexivity].
+      * intros _. now apply xb_is_nil_true.
+  - destruct (xb_has_key name (xd_frags (xb_doc st))) eqn:Ek.
+    { exfalso. cbn [xb_push xb_errs] in He. rewrite He0 in He. discriminate. }
+    destruct (xb_fragment s name cond dirs sels) as [[f|] es] eqn:Ef.
+    + cbn [xb_push xb_with_doc xb_errs xb_doc] in He |- *. rewrite He0 in He. cbn [app] in He. subst es.
+      cbn [xd_anon xd_named xd_frags xt_is_anon xt_is_named xt_is_frag]. rewrite !app_nil_r.
+      repeat split; try assumption. econstructor; eassumption.
+    + exfalso. unfold xb_fragment in Ef.
+      destruct (match s with
+                | Some sc => match sch_get_type sc cond with None => true | Some _ => false end
+                | None => false end).
+      * injection Ef as <-. cbn [xb_push xb_errs] in He. rewrite He0 in He. discriminate.
+      * destruct (xb_sels s cond [] sels). discriminate.
+Qed.
+
+Lemma xb_fold_facts s ts l : forall pre st,
+  xb_errs (fold_left (xb_definition s ts) l st) = [] ->
+  xt_facts s pre (xb_doc st) -> xt_facts s (pre ++ l) (xb_doc (fold_left (xb_definition s ts) l st)).
+Proof.
+  induction l as [|def r IH]; intros pre st He Hinv; cbn [fold_left] in *.
+  - now rewrite app_nil_r.
+  - destruct (xb_fold_errs s ts r (xb_definition s ts st def)) as [es2 H2].
+    destruct (xb_definition_errs s ts st def) as [es1 H1].
+    pose proof He as He'. rewrite H2 in He'. apply app_eq_nil in He' as [He1 _].
+    assert (He0 : xb_errs st = []) by (rewrite H1 in He1; now apply app_eq_nil in He1).
+    replace (pre ++ def :: r) with ((pre ++ [def]) ++ r) by now rewrite <- app_assoc.
+    apply IH; [exact He|]. apply xb_definition_facts; assumption.
+Qed.
+
+(* replaying each kind on its own *)
+Definition xt_state (a : option xop) (n : list (str * xop)) (f : list (str * xfrag)) (m : bool) : xb_state :=
+  {| xb_doc := {| xd_anon := a; xd_named := n; xd_frags := f |}; xb_multiple_anonymous := m; xb_errs := [] |}.
+
+Lemma xt_replay_named s ts N M : XtNamedBuilt s N M -> forall f m,
+  fold_left (xb_definition s ts) N (xt_state None [] f m) = xt_state None M f m.
+Proof.
+  induction 1 as [|L M o n v di sl op HB IH Hk Ho]; intros f m; [reflexivity|].
+  rewrite fold_left_app, IH. cbn [fold_left xb_definition xt_state xb_doc xd_anon xd_named].
+  rewrite Hk, Ho. reflexivity.
+Qed.
+
+Lemma xt_replay_frags s ts F M : XtFragsBuilt s F M -> forall a n m,
+  fold_left (xb_definition s ts) F (xt_state a n [] m) = xt_state a n M m.
+Proof.
+  induction 1 as [|L M n c di sl f HB IH Hk Hf]; intros a nm m; [reflexivity|].
+  rewrite fold_left_app, IH. cbn [fold_left xb_definition xt_state xb_doc xd_frags].
+  rewrite Hk, Hf. reflexivity.
+Qed.
+
+Lemma xt_named_built_nil s L : XtNamedBuilt s L [] -> L = [].
+Proof. inversion 1 as [|L' M o n v di sl op _ _ _ HL HM]; [reflexivity|]. now destruct M. Qed.
+
+(* an error-free build is reproduced when the printed AST is built again *)
+Theorem xb_second_round_full s ts a d :
+  xs_closed s -> xb_document s ts a = (d, []) -> xb_document s ts (xt_doc d) = (d, []).
+Proof.
+  intros Hcl H. rewrite (xb_document_to_ast _ _ _ _ Hcl H).
+  unfold xb_document in H. injection H as Hd He.
+  destruct (xb_fold_facts s ts a [] xb_init He) as (Fa & Fn & Ff & Fan).
+  { unfold xt_facts. cbn. repeat split; try constructor; auto. }
+  cbn [app] in *. rewrite Hd in *.
+  unfold xb_document, xt_reorder. rewrite !fold_left_app.
+  change xb_init with (xt_state None [] [] false).
+  destruct d as [anon named frags]. cbn [xd_anon xd_named xd_frags] in *.
+  destruct Fa as [[-> ->]|(o & v & di & sl & op & -> & Ho & ->)].
+  - cbn [fold_left]. rewrite (xt_replay_named _ _ _ _ Fn), (xt_replay_frags _ _ _ _ Ff). reflexivity.
+  - rewrite (Fan ltac:(discriminate)) in *. apply xt_named_built_nil in Fn. rewrite Fn.
+    cbn [fold_left xb_definition xt_state xb_doc xd_anon xd_named xb_is_nil negb]. rewrite Ho.
+    change (xb_with_doc _ _) with (xt_state (Some op) [] [] false).
+    rewrite (xt_replay_frags _ _ _ _ Ff). reflexivity.
+Qed.
